@@ -108,6 +108,12 @@ strlist_const("ASSERTION_LIST", "pkg/infrastructure/constants/java_target_config
 nat_const("tequila_Level", "pkg/application/arch/tequila/merge_viz.go",
           r"^var Level = (\d+)\s*$", "MergePackageFunc depth")
 
+# ---- concept analysis (C18)
+strlist_const("TechStopWords", "pkg/infrastructure/constants/java_target_config.go",
+              r"TechStopWords\s*=\s*\[\]string\{(.*?)\n\}", "technical stop words")
+strlist_const("ENGLISH_STOP_WORDS", "pkg/application/call/stop_words/languages/en.go",
+              r"ENGLISH_STOP_WORDS\s*=\s*\[\]string\{(.*?)\n\}", "English stop words")
+
 # ---- cloc (C16)
 strlist_const("cloc_ignore_dirs", "pkg/application/cloc/cloc_app.go",
               r"func IsIgnoreDir.*?\[\]string\{(.*?)\}", "directories skipped by the by-directory report")
@@ -130,6 +136,12 @@ str_const("deps_gradle_block", "pkg/infrastructure/ast/ast_groovy/groovy_identif
           r'GetText\(\) != "([^"]+)"', "name of the build.gradle closure whose statements are the declared dependencies")
 str_const("deps_coord_sep", "pkg/infrastructure/ast/ast_groovy/groovy_identifier_listener.go",
           r'strings\.Split\(\w+, "([^"]+)"\)', "separator of group:artifact:version in ConvertToJDep")
+
+# ---- todo scanner (C17)
+strlist_const("todo_identifiers", "pkg/application/todo/astitodo/astitodo.go",
+              r"todoIdentifiers\s*=\s*\[\]string\{(.*?)\}", "comment keywords of IsTodoIdentifier, in test order")
+str_const("todo_assign_regexp", "pkg/application/todo/astitodo/astitodo.go",
+          r'assignRegStr\s*=\s*"((?:[^"\\\n]|\\.)*)"', "assignee expression, as written in the Go source (escapes not decoded)")
 
 import json as _json
 if not errors:
